@@ -112,6 +112,7 @@ def gen_plan(rng, tier: str, idx: int) -> dict:
             if tab and rng.random() < 0.85 or k == 0:
                 errors[str(k)] = tab
         plan["errors"] = errors
+        plan["idents"] = W.gen_idents(rng, K)
     else:
         plan["kernels"] = [{"kind": "rw", "keys": [{"name": "x", "shape": [], "dtype": "f"}]},
                            {"kind": "rw", "keys": [{"name": "y", "shape": [2], "dtype": "f"}]}]
